@@ -22,6 +22,13 @@ theorem tree_closed_no_live (s : NodeConn.St) (h : NodeConn.Reachable Tie.Tree.n
 theorem tree_live_is_current (s : NodeConn.St) (h : NodeConn.Reachable Tie.Tree.nodeConnParams s) :
     s.live.length ≤ 1 ∧ ∀ c ∈ s.live, s.conn = some c := NodeConnP.live_is_current _ nodeConn_good s h
 
+/-- **Close over the pool, on the tree's parameters**: once `Manager.Close` has returned every node of the pool is closed,
+    none of its connections is live and no dial is in progress — and that is final -/
+theorem mgrCloseParams_good : Tie.Tree.mgrCloseParams.Good := ⟨nodeConn_good, mgrClose_good⟩
+theorem tree_returned_all_closed (n : Nat) (s : MgrClose.St) (h : MgrClose.Reachable Tie.Tree.mgrCloseParams n s) (hr : s.returned = true) :
+    ∀ x ∈ s.nodes, x.closed = true ∧ x.live = [] ∧ x.dialing = false :=
+  MgrCloseP.returned_all_closed _ mgrCloseParams_good n s h hr
+
 end GorumsV.Tie.C12
 section Audit
 open GorumsV.C12
@@ -30,6 +37,13 @@ open GorumsV.C12
 #print axioms GorumsV.Tie.C12.mgrClose_good
 #print axioms GorumsV.Tie.C12.tree_closed_no_live
 #print axioms GorumsV.Tie.C12.tree_live_is_current
+#print axioms GorumsV.Tie.C12.mgrCloseParams_good
+#print axioms GorumsV.Tie.C12.tree_returned_all_closed
+#print axioms GorumsV.MgrCloseP.nodes_reachable
+#print axioms GorumsV.MgrCloseP.passed_are_closed
+#print axioms GorumsV.MgrCloseP.returned_all_closed
+#print axioms GorumsV.MgrCloseP.returned_is_final
+#print axioms GorumsV.MgrCloseP.needs_reachesAll
 #print axioms GorumsV.NodeConnP.live_is_current
 #print axioms GorumsV.NodeConnP.closed_no_live
 #print axioms GorumsV.NodeConnP.closed_is_final
